@@ -16,7 +16,7 @@ def scenarios(tier, seed):
     scs = []
 
     def add(**kw):
-        d = dict(k=0, closer="api", graceful=False, second="", blockWrite=False, slowState=False, restart=False, preGather=False, writer=False, tcp=False, viaConn=False)
+        d = dict(k=0, closer="api", graceful=False, second="", blockWrite=False, slowState=False, restart=False, preGather=False, writer=False, tcp=False, viaConn=False, realMux=False)
         d.update(kw)
         d["id"] = len(scs) + 1
         scs.append(d)
@@ -34,6 +34,11 @@ def scenarios(tier, seed):
             add(k=k, closer=closer, writer=True, second="close")
         add(k=k, preGather=True)
         add(k=k, preGather=True, graceful=True)
+        if k in (3, 6, 9, 12):   # the candidate on the production UDP mux: a blocked write comes back through the mux's write abort
+            for graceful in (False, True):
+                add(k=k, graceful=graceful, realMux=True)
+                add(k=k, graceful=graceful, realMux=True, blockWrite=True)
+                add(k=k, graceful=graceful, realMux=True, blockWrite=True, writer=True, second="close")
         if k >= 6:   # the application closes through the net.Conn it got from Dial, from its own goroutine or from a handler
             add(k=k, viaConn=True, writer=True)
             add(k=k, viaConn=True, second="graceful")
@@ -62,7 +67,7 @@ def features(pred, lines, idx):
             cfg = b.get("cfg", {})
             break
     f = {"predicate": pred, "ev": e["ev"], "who": e.get("who", ""), "err": e.get("err", "")[:60]}
-    for k in ("closer", "graceful", "second", "blockWrite", "slowState", "restart", "preGather", "writer", "tcp", "viaConn"):
+    for k in ("closer", "graceful", "second", "blockWrite", "slowState", "restart", "preGather", "writer", "tcp", "viaConn", "realMux"):
         f["sc_" + k] = cfg.get(k)
     return f, cfg
 
